@@ -11,7 +11,11 @@ pub fn res_tree(r: Result<Value, jsonb::Error>) -> String {
 }
 
 pub fn exec(line: &str) -> String {
-    let f: Vec<&str> = line.trim().split(' ').collect();
+    let mut f: Vec<&str> = line.trim().split(' ').collect();
+    // `spec:<op>` asks the model for the spec-layer answer; the real code runs the same op
+    if let Some(op) = f[0].strip_prefix("spec:") {
+        f[0] = op;
+    }
     match f.as_slice() {
         ["numenc", v] => match parse_tree(v) {
             Some(Value::Number(n)) => {
